@@ -229,7 +229,9 @@ def run_case(case: dict) -> dict:
     if case["mode"] == "plain":
         for j in range(4):
             inj = [{"at": rng.randrange(2, 20), "do": "cancel"}] if j == 3 else None
-            run = delivery_run(spec, seed=rng.randrange(1 << 30), order="fifo" if j == 0 else "random", noack_p=0.0 if j == 0 else 0.2, events=True, injections=inj, max_steps=1200)
+            run = delivery_run(spec, seed=rng.randrange(1 << 30), order="fifo" if j == 0 else "random", noack_p=0.0 if j == 0 else 0.2, events="echo" if j % 2 else True, injections=inj, max_steps=1200)
+            if j % 2:
+                obs["runs_with_recording_subscriber"] += 1
             obs["evaluations"] += 1
             v, o, k = atomicity_oracle(run)
             obs.update(o)
